@@ -29,7 +29,10 @@ type dbSuite struct {
 	again   []string
 	// lines to emit next, inside the current transaction (a burst A, B, A of writes to one member)
 	pendOps []string
-	dir     string
+	// a set key whose members were all removed a moment ago (the key stays, with no members): the next set
+	// operations go to it — an emptied structure is where a "pick one member" shortcut breaks
+	emptiedB, emptiedK string
+	dir                string
 	db      *nutsdb.DB
 	tx      *nutsdb.Tx
 	opt     nutsdb.Options
@@ -62,6 +65,9 @@ type dbSuite struct {
 	imgLeft      int
 	imgNext      int
 	armedGen     bool
+	// mergedOnce: a Merge ran on this handle (profile mcrash then also captures the crash and power-loss points of
+	// some later commits: what a commit does after a Merge on the same handle)
+	mergedOnce bool
 	bkN          int // backups taken in this case
 	bkAfterMerge bool
 	bkPending    int // transactions to go before the last backup is opened and observed (-1: none pending)
@@ -304,6 +310,7 @@ func (s *dbSuite) newCase(id int) {
 	s.noList = (s.profile == "merge" || s.profile == "mcrash") && id%2 == 1
 	s.again = nil
 	s.pendOps = nil
+	s.emptiedB, s.emptiedK = "", ""
 	if strings.HasPrefix(s.profile, "opts") {
 		g := 8
 		if s.profile == "optskv" {
@@ -318,6 +325,7 @@ func (s *dbSuite) newCase(id int) {
 	s.openLine = ""
 	s.interned = nil
 	s.images, s.imgNext, s.armedGen, s.capture, s.armed, s.mergeNext = nil, 0, false, false, false, false
+	s.mergedOnce = false
 	nutsdb.VerifFSHook = s.hook
 }
 
@@ -986,6 +994,7 @@ func (s *dbSuite) gen(r *rand.Rand, step int) string {
 			// clean reopen
 			s.pendObs = false
 			s.opened = false
+			s.mergedOnce = false
 			return "close"
 		case (x == 1 || ((x == 3 || x == 4 || x == 5) && s.profile == "mcrash") || ((x == 3 || x == 4) && s.profile == "merge")) && (s.profile == "merge" || s.profile == "mcrash" || s.profile == "isoset"):
 			if s.profile == "mcrash" && !s.armedGen {
@@ -997,6 +1006,7 @@ func (s *dbSuite) gen(r *rand.Rand, step int) string {
 			s.imgNext = 0
 			s.pendObs = true
 			s.bkAfterMerge = true // a backup right after a Merge, looked at a few transactions later
+			s.mergedOnce = true
 			return fmt.Sprintf("merge %d", s.now())
 		case x == 2:
 			// a call on a finished transaction
@@ -1038,7 +1048,7 @@ func (s *dbSuite) gen(r *rand.Rand, step int) string {
 		return l
 	}
 	if s.txLeft <= 0 {
-		if s.profile == "crash" && s.txW && !s.armedGen && r.Intn(2) == 0 {
+		if ((s.profile == "crash" && r.Intn(2) == 0) || (s.profile == "mcrash" && s.mergedOnce && r.Intn(3) == 0)) && s.txW && !s.armedGen {
 			s.armedGen = true
 			s.images = nil
 			return "capture"
@@ -1203,6 +1213,35 @@ func (s *dbSuite) genOp(r *rand.Rand, dead bool) string {
 			k2 = ks[r.Intn(len(ks))]
 		}
 		b2 := s.kindBucket(r, "set")
+		if s.emptiedK != "" && !dead && r.Intn(2) == 0 {
+			eb, ek := hx([]byte(s.emptiedB)), hx([]byte(s.emptiedK))
+			if r.Intn(3) == 0 {
+				s.emptiedB, s.emptiedK = "", ""
+			}
+			switch r.Intn(6) {
+			case 0, 1, 2:
+				return fmt.Sprintf("spop %s %s %d", eb, ek, now)
+			case 3:
+				return []string{"smembers", "scard", "shaskey"}[r.Intn(3)] + " " + eb + " " + ek
+			case 4:
+				return fmt.Sprintf("sunion1 %s %s %s", eb, ek, hx(k2))
+			default:
+				return fmt.Sprintf("sdiff1 %s %s %s", eb, hx(k2), ek)
+			}
+		}
+		if !dead && s.txW && r.Intn(14) == 0 {
+			// remove every member of a set in one call
+			var ms [][]byte
+			s.peek(dead, func(t *nutsdb.Tx) {
+				if l, err := t.SMembers(b, k); err == nil {
+					ms = l
+				}
+			})
+			if len(ms) > 0 && len(ms) <= 6 {
+				s.emptiedB, s.emptiedK = b, string(k)
+				return fmt.Sprintf("srem %s %s %s %d", hb, hx(k), hxList(ms), now)
+			}
+		}
 		switch r.Intn(18) {
 		case 0, 1, 2, 3:
 			return fmt.Sprintf("sadd %s %s %s %d", hb, hx(k), hxList(s.genVals(r)), now)
